@@ -233,10 +233,87 @@ def plan(tier, seed):
         specs.append({'kind': 'unary', 'word': word, 'tier': tier, 'storage': 'global'})
         specs.append({'kind': 'unary', 'word': word, 'tier': tier, 'storage': 'const'})
         specs.append({'kind': 'strings', 'word': word, 'tier': tier})
+        specs.append({'kind': 'literals', 'word': word, 'tier': tier})
+        specs.append({'kind': 'arraytruth', 'word': word, 'tier': tier})
+        # the operator semantics do not depend on the run-time checks: the fault-free grids again under --unchecked
+        specs.append({'kind': 'unary', 'word': word, 'tier': tier, 'unchecked': True})
+        specs.append({'kind': 'unary', 'word': word, 'tier': tier, 'storage': 'const', 'unchecked': True})
+        specs.append({'kind': 'binary', 'word': word, 'ta': 'int', 'tb': 'byte', 'ops': ARITH, 'positions': ['value'], 'tier': tier, 'unchecked': True})
+        specs.append({'kind': 'binary', 'word': word, 'ta': 'int', 'tb': 'int', 'ops': CMP, 'positions': ['value', 'tid_undo', 'logic'], 'tier': tier, 'unchecked': True})
+        specs.append({'kind': 'arraytruth', 'word': word, 'tier': tier, 'unchecked': True})
         for storage in ('global', 'element'):
             specs.append({'kind': 'binary', 'word': word, 'ta': 'int', 'tb': 'int', 'ops': ARITH, 'positions': ['value'], 'tier': tier, 'storage': storage})
             specs.append({'kind': 'binary', 'word': word, 'ta': 'byte', 'tb': 'int', 'ops': CMP, 'positions': ['value', 'branch', 'tid_stop'], 'tier': tier, 'storage': storage})
     return specs
+
+
+LITERAL_OPERANDS = [0, 1, -1, 2, 10, 255, 256]
+
+
+def literal_program(L):
+    """every arithmetic and comparison operator with the literal L on the left and on the right of a run-time operand
+    (int and byte), as value and as branch: identities such as x+0, x*1, 0-x, 1/x must not be confused with one another"""
+    body = []
+    lt = f'({L})' if L < 0 else str(L)
+    for op in ARITH + CMP:
+        for x in ('a', '(a is byte)'):
+            for e, guard in ((f'{lt} {op} {x}', f'{x} != 0' if op in '/%' else None), (f'{x} {op} {lt}', 'false' if (op in '/%' and L == 0) else None)):
+                if guard == 'false':
+                    continue
+                st = f'write({e});' if op in ARITH else f'if ({e}) {{ write(\'T\'); }} else {{ write(\'F\'); }} bool r = {e}; write(r is int);'
+                if guard:
+                    st = f'if ({guard}) {{ {st} }} else {{ write(\'z\'); }}'
+                body.append(f'{{ {st} }} write(\' \');')
+    return 'empty @is_you(const int[] v) {\n  for (int i = 0; i < v.length; i += 1) {\n    int a = v[i];\n    ' + '\n    '.join(body) + '\n    writeln();\n  }\n}\n'
+
+
+def literal_expected(sem, vals, L):
+    out = bytearray()
+    for a0 in vals:
+        for op in ARITH + CMP:
+            for x in (a0, a0 & 0xFF):
+                for l, r, guard in ((L, x, op in '/%' and x == 0), (x, L, None if (op in '/%' and L == 0) else False)):
+                    if guard is None:
+                        continue
+                    if guard:
+                        out += b'z '
+                        continue
+                    v = sem.binop(op, l, r)
+                    out += (fmt(v) if op in ARITH else fmt(bool(v)) + (b'1' if v else b'0')) + b' '
+        out += b'\n'
+    return bytes(out)
+
+
+def array_truth_program():
+    """truthiness of arrays whose length is known to the compiler (0, 1, 2, 3, 9 elements, every element type and storage)
+    and of arrays whose length is only known at run time, in every position"""
+    decls = [('a0', 'int[] a0 = [];', 0), ('a1', 'int[] a1 = [v.length];', 1), ('a2', 'int[] a2 = [1, 2];', 2), ('b3', "byte[] b3 = ['x', 'y', 'z'];", 3),
+             ('c2', 'const int[] c2 = [v.length, 2];', 2), ('f9', 'bool[] f9 = [true, false, true, false, true, false, true, false, false];', 9),
+             ('s2', 'string[] s2 = ["", ""];', 2), ('d', 'int d[v.length];', None), ('e', 'byte e[v.length * 2];', None), ('z', 'bool z[0];', 0),
+             ('g3', None, 3), ('g0', None, 0), ('v', None, None), ('[7, 8]', None, 2), ('[v.length]', None, 1), ('("ab" is byte[])', None, 2)]
+    body = []
+    for nm, decl, _ in decls:
+        if decl:
+            body.append(decl)
+    for nm, _, _ in decls:
+        body.append(f"if ({nm}) {{ write('T'); }} else {{ write('F'); }} if (not {nm}) {{ write('T'); }} else {{ write('F'); }} "
+                    f"write({nm} is bool); write(({nm} is bool) is int); write({nm} and true); write(not {nm}); write({nm} or false); "
+                    f"int n{len(body)} = 0; while ({nm} and n{len(body)} < 2) {{ n{len(body)} += 1; }} write(n{len(body)}); "
+                    f"try {{ !truth_is_defeat({nm} is bool); write('F'); }} undo {{ write('T'); }} "
+                    f"if ({nm} and v.length >= 0) {{ write('T'); }} else {{ write('F'); }} bool k{len(body)} = {nm} is bool; write(k{len(body)} == true); write(' ');")
+    return 'int[] g3 = [1, 2, 3];\nint[] g0 = [];\nempty @is_you(const int[] v) {\n  ' + '\n  '.join(body) + '\n  writeln();\n}\n', decls
+
+
+def array_truth_expected(decls, nargs):
+    out = bytearray()
+    f = lambda b: b'true' if b else b'false'       # noqa: E731
+    c = lambda b: b'T' if b else b'F'              # noqa: E731
+    for nm, _, n in decls:
+        if n is None:
+            n = nargs * 2 if nm == 'e' else nargs
+        t = n != 0
+        out += c(t) + c(not t) + f(t) + (b'1' if t else b'0') + f(t) + f(not t) + f(t) + (b'2' if t else b'0') + c(t) + c(t) + f(t) + b' '
+    return bytes(out) + b'\n'
 
 
 STRING_LENGTHS = [0, 1, 2, 255, 256, 257, 511, 512, 768, 1024]
@@ -282,7 +359,14 @@ def run_shard(spec):
     sem = Sem(8 * word)
     vals = grid(8 * word, spec['tier'] == 'quick')
     args = [str(v) for v in vals]
-    if spec['kind'] == 'strings':
+    if spec['kind'] == 'arraytruth':
+        src, decls = array_truth_program()
+        jobs = []
+        for nargs in (0, 1, 3):
+            jobs.append((f'array truthiness with {nargs} arguments', src, array_truth_expected(decls, nargs), len(decls) * 11, [str(k) for k in range(nargs)]))
+    elif spec['kind'] == 'literals':
+        jobs = [(f'literal {L} as left/right operand', literal_program(L), literal_expected(sem, vals, L), len(vals) * 40) for L in LITERAL_OPERANDS]
+    elif spec['kind'] == 'strings':
         # truthiness and length of run-time strings at the sizes where a narrower load would show (multiples of 256)
         args = [bytes(97 + (k % 26) for k in range(n)).decode() for n in STRING_LENGTHS]
         vals = STRING_LENGTHS
@@ -298,10 +382,15 @@ def run_shard(spec):
             src = binary_program(spec['ops'], spec['ta'], spec['tb'], pos, st)
             jobs.append((f'{spec["ta"]} {"".join(spec["ops"])} {spec["tb"]} as {pos} ({st} operands)', src,
                          binary_expected(sem, vals, spec['ops'], spec['ta'], spec['tb'], pos), len(vals) ** 2 * len(spec['ops'])))
-    for tag, src, want, napps in jobs:
+    for job in jobs:
+        tag, src, want, napps = job[:4]
+        if len(job) > 4:
+            args = job[4]
         res['evaluations'] += 1
-        case = diff.case_dict(src, args, word, diff.GENEROUS_STACK, gen=tag)
-        run = diff.compile_and_run(src, args, word=word, stack=diff.GENEROUS_STACK, max_steps=60_000_000, monitors=False)
+        case = diff.case_dict(src, args, word, diff.GENEROUS_STACK, spec.get('unchecked', False), gen=tag)
+        run = diff.compile_and_run(src, args, word=word, stack=diff.GENEROUS_STACK, max_steps=60_000_000, monitors=False, unchecked=spec.get('unchecked', False))
+        if spec.get('unchecked'):
+            tag += ' --unchecked'
         if run.kind != 'ok':
             runner.fail(res, 'M-OP', f'{tag}: {run.kind}: {run.detail}', case)
             continue
